@@ -63,7 +63,7 @@ chk("C20", "model_checking",
 chk("C06", "fault_enumeration",
     "Every crash point (operation boundary and byte within every write) of recorded real sessions is materialised, reopened with the real resumption code, continued and finalized; TLC validates each "
     "observation against CrashObs!CrashSafe and the recorded write logs against the I-layer write protocol WriteProto.tla.",
-    "Exhaustive over crash points of 100 (198 thorough) sessions incl. sessions resumed from a crash inside Finalize and inside a reopen's own header clearing; crash = prefix of issued writes, last possibly torn. " + TB,
+    "Exhaustive over crash points of 126 (220 thorough) sessions incl. sessions resumed from a crash inside Finalize and inside a reopen's own header clearing, and thirty-block sessions whose index exceeds a kilobyte; crash = prefix of issued writes, last possibly torn. " + TB,
     "recorded crash-point observations validated by TLC against a TLA+ relation; write-log trace validation against a TLA+ protocol spec", "DESIGN.md §3 C06")
 chk("C16", "fault_enumeration",
     "A transient write fault is injected at every write of a session and every persisted-byte count, followed by every continuation; TLC validates each observation against FaultObs!FaultSafe.",
